@@ -282,7 +282,45 @@ def suite_mapping(tier):
             yield ('mapbig', ch, nsub, nmodes, tuple(sq)), vsynth.Stream(s, pk_seq(s, sq, f))
 
 
-SUITES = [('windows', suite_windows), ('codebooks', suite_codebooks), ('floor1', suite_floor1), ('floor0', suite_floor0), ('residue', suite_residue), ('mapping', suite_mapping)]
+def suite_granule(tier):
+    """granule-position rules: every start-trim amount on the first page (= first two audio packets) and every end-trim amount on the eos packet"""
+    for (b0, b1) in ((64, 64), (64, 128), (128, 1024)) if tier == 'quick' else ((64, 64), (64, 128), (128, 1024), (256, 2048), (2048, 2048)):
+        for seq in ((0, 0, 0, 0), (1, 1, 0, 1), (0, 1, 1, 0), (1, 0, 0, 1, 1)):
+            s0 = vsynth.base_setup(channels=2, bs0=b0, bs1=b1, coupling=[(0, 1)])
+            bs = [s0.blocksize(s0.modes[m].blockflag) for m in seq]
+            adv = [0] + [bs[i - 1] // 4 + bs[i] // 4 for i in range(1, len(seq))]
+            cases = [(t, None) for t in range(0, adv[1] + 1)] + [(0, e) for e in range(0, adv[-1] + 1)] + [(adv[1] // 2, adv[-1] // 3), (1, 1), (adv[1], 0)]
+            if tier == 'quick' and max(adv) > 200:
+                cases = [c for k, c in enumerate(cases) if k % 7 == 0 or c[0] in (0, 1, adv[1] - 1, adv[1]) and c[1] in (None, 0, 1, adv[-1] - 1, adv[-1])]
+            for (t, e) in cases:
+                if not mine():
+                    continue
+                yield ('gran', b0, b1, seq, t, e), (lambda a=(b0, b1, seq, t, e, adv): build_gran(*a))
+
+
+def build_gran(b0, b1, seq, t, e, adv):
+    s = vsynth.base_setup(channels=2, bs0=b0, bs1=b1, coupling=[(0, 1)])
+    f = vsynth.Filler(fixed=fill_used())
+    pk = pk_seq(s, list(seq), f)
+    n = len(seq)
+    grans = [-1] * n
+    # page style: the first page holds the first two audio packets, its granule position sits on the second one
+    G = adv[1] - t
+    grans[1] = G
+    for i in range(2, n - 1):
+        G += adv[i]
+        if i % 2 == 0:
+            grans[i] = G            # consistent running position on some packets, none on the others
+    keep = adv[-1] if e is None else e
+    grans[n - 1] = G + keep
+    eos = [0] * (n - 1) + [1]
+    st = vsynth.Stream(s, pk, grans=grans, eos=eos)
+    st.trim_start = t
+    st.trim_end_keep = keep if e is not None else None
+    return st
+
+
+SUITES = [('granule', suite_granule), ('windows', suite_windows), ('codebooks', suite_codebooks), ('floor1', suite_floor1), ('floor0', suite_floor0), ('residue', suite_residue), ('mapping', suite_mapping)]
 
 
 # ------------------------------------------------------------------- workers
@@ -359,7 +397,8 @@ def classify(tag, msg, dump=None):
     if dump is not None and 'library' in msg and res2_unaligned(dump):
         return 'res2_partition_not_multiple_of_channels'
     what = 'count' if 'sample count' in msg else 'rejected' if 'rejected' in msg else 'value' if 'library' in msg else 'other'
-    return f'{tag.split(",")[0].strip("(\x27")}:{what}'
+    head = tag.split(',')[0].strip("('")
+    return f'{head}:{what}'
 
 
 def run(tier):
